@@ -31,6 +31,9 @@ import (
 
 func TestMain(m *testing.M) { rec.Main(m, "C14") }
 
+// ruleMore describes what was added to the exploration in the build phase.
+const ruleMore = "; one specimen per semantic diagnostic in several declaration orders"
+
 const (
 	rule = "inputs: (a) valid specifications mutated at token level (deletion, duplication, replacement) and byte level (truncation at any byte, byte replacement incl. NUL, non-UTF-8 and control bytes), arbitrary byte strings; " +
 		"(b) pattern strings over the metacharacter alphabet incl. empty, non-ASCII escapes and classes in brackets, plus mutated canonical patterns; (c) command lines (unknown flags, missing values, -h, directories, missing/empty/binary files); " +
@@ -378,7 +381,7 @@ func genPatternRaw(t *rapid.T) (string, string) {
 }
 
 func TestSpecificationsNeverCrash(t *testing.T) {
-	rec.Rule(rule)
+	rec.Rule(rule + ruleMore)
 	if rec.Listed(cyclicKey) {
 		rec.Assume("listed finding cyclic-grammar-panic (dependency): LALRParsingTable is not called for accepted specifications whose grammar is cyclic (counted as excluded_known_cyclic)")
 		for i := 0; i < 30; i++ {
@@ -418,7 +421,7 @@ func TestSpecificationsNeverCrash(t *testing.T) {
 }
 
 func TestPatternsNeverCrash(t *testing.T) {
-	rec.Rule(rule)
+	rec.Rule(rule + ruleMore)
 	rec.Check(t, 6000, 240000, func(t *rapid.T) {
 		s, label := genPattern(t)
 		accepted, err := checkPattern(s)
@@ -440,7 +443,7 @@ func TestPatternsNeverCrash(t *testing.T) {
 
 func TestHostileConstants(t *testing.T) {
 	rec.Begin(t)
-	rec.Rule(rule)
+	rec.Rule(rule + ruleMore)
 	if rec.Shard() != 0 {
 		t.Skip("seed independent: shard 0 only")
 	}
@@ -516,7 +519,7 @@ func checkCLI(dir string, args []string) (int, error) {
 }
 
 func TestCommandLinesNeverCrash(t *testing.T) {
-	rec.Rule(rule)
+	rec.Rule(rule + ruleMore)
 	bin := os.Getenv("VERIF_EMERGE_BIN")
 	if _, err := os.Stat(bin); err != nil {
 		t.Skip("emerge binary not built")
